@@ -509,6 +509,7 @@ func (r *run) sectionMapLin() error {
 		maxG = 2
 	}
 	sampled := map[string]bool{}
+	reported := map[string]int{}
 	var batch []*linJob
 	flush := func() error {
 		t0 := time.Now()
@@ -545,8 +546,13 @@ func (r *run) sectionMapLin() error {
 			}
 			if what != "" {
 				r.out.IllegalHistories++
-				if r.out.IllegalHistories > maxFindingsPerSection {
+				reported[name]++
+				if reported[name] > maxFindingsPerScenario {
 					continue
+				}
+				if confirmPorcupine(j.h, &j.res); j.res.err != nil {
+					js, _ := json.Marshal(renderHistory(j.h))
+					return fmt.Errorf("%s round %d: %v\n%s", name, j.round, j.res.err, js)
 				}
 				r.addFinding(section, name+": "+what, map[string]interface{}{
 					"seed": r.seed, "section": section, "scenario": name, "round": j.round, "repetition": j.rep,
